@@ -476,7 +476,7 @@ def bcrypt_groups(tier, rng, groups, skipped, crypt_ok):
     # ldap_bcrypt / django_bcrypt prefix wrappers
     g = TGroup("ref:bcrypt-wrappers", "ldap_bcrypt", "{CRYPT} and bcrypt$ prefixes around bcrypt: lengths x cost 4")
     for n in (0, 1, 8, 55, 56, 72):
-        pw = pw_bytes(rng, n, n % 3)
+        pw = utf8_pw(rng, n)  # whichever backend is the default here may be os_crypt (UTF-8 only)
         salt = bcrypt_salt(rng)
         refs = oracle(pw, "2b", 4, salt)
         if not refs:
@@ -492,7 +492,7 @@ def bcrypt_groups(tier, rng, groups, skipped, crypt_ok):
     groups.append(g.done())
 
 
-def scrypt_group(tier, rng, groups, skipped):
+def scrypt_group(tier, rng, groups, skipped, crypt_ok):
     from passlib import hash as H
 
     if not hasattr(hashlib, "scrypt"):
@@ -538,6 +538,41 @@ def scrypt_group(tier, rng, groups, skipped):
                 ps._set_backend(orig)
             except Exception:  # noqa: BLE001
                 pass
+    groups.append(g.done())
+
+    # "$7$" variant (unix-scrypt.txt): N as one hash64 digit, r and p as 5 little-endian hash64 digits, raw salt,
+    # 32-byte key in little-endian hash64; crypt(3) implements it on libxcrypt hosts and is a second oracle
+    def enc7(raw):
+        out = ""
+        for i in range(0, len(raw), 3):
+            chunk = raw[i : i + 3]
+            out += rc.to64(int.from_bytes(chunk, "little"), {3: 4, 2: 3, 1: 2}[len(chunk)])
+        return out
+
+    has_os7 = bool(crypt_ok) and oscrypt.crypt(b"pleaseletmein", "$7$20..../....SodiumChloride$") == "$7$20..../....SodiumChloride$9ykG1BkoaWQQYW1LoSOdnC96Yb7nRiE0ZlUcSPOy9WD"
+    if not has_os7:
+        skipped.append("crypt(3) oracle for scrypt $7$: not implemented by this host's libcrypt (hashlib.scrypt + own encoding used alone)")
+    g = TGroup("ref:scrypt-$7$", "scrypt", "$7$ format: ln 1..6 x r {1,2,8,33} x p {1,2,3,65} x hash64 salt sizes 0..17,32 x password lengths; hashlib.scrypt + own encoder, and crypt(3)")
+    idx = 0
+    for n in LENGTHS + ([4096] if tier != "quick" else []):
+        pw = pw_bytes(rng, n, idx % 3)
+        salt = rstr(rng, (list(range(0, 18)) + [32])[idx % 19])
+        ln = 1 + idx % 6
+        r = (1, 2, 8, 33)[idx % 4]
+        p = (1, 2, 3, 65)[(idx // 4) % 4]
+        idx += 1
+        raw = hashlib.scrypt(pw, salt=salt.encode(), n=1 << ln, r=r, p=p, dklen=32)
+        want = "$7$" + H64[ln] + rc.to64(r, 5) + rc.to64(p, 5) + salt + "$" + enc7(raw)
+        g.case(("scrypt7", pw, salt, ln, r, p))
+        w = {"hasher": "scrypt", "ident": "$7$", "secret": {"bytes_hex": pw.hex()}, "salt": salt, "rounds": ln, "block_size": r, "parallelism": p}
+        o = outcome(lambda: H.scrypt.using(ident="$7$", salt=salt.encode(), rounds=ln, block_size=r, parallelism=p).hash(pw))
+        g.check(o == ("ok", want), "hash:scrypt:$7$", "hash differs from the $7$ reference", dict(w, outcome=list(o), want=want))
+        o = outcome(H.scrypt.verify, pw, want)
+        g.check(o == ("ok", True), "verify:scrypt:$7$", "reference $7$ string does not verify", dict(w, string=want, outcome=list(o)))
+        if has_os7:
+            os_hash = oscrypt.crypt(pw, want[: want.rindex("$") + 1])
+            if os_hash:
+                g.check(os_hash == want, "oscrypt-vs-ref:scrypt:$7$", "crypt(3) and the reference disagree (harness oracle conflict)", dict(w, os=os_hash, ref=want))
     groups.append(g.done())
 
 
@@ -765,7 +800,7 @@ def build(tier, rng):
         run_format(fmt, tier, rng, groups, skipped, crypt_ok)
         covered.add(fmt.name)
     bcrypt_groups(tier, rng, groups, skipped, crypt_ok)
-    scrypt_group(tier, rng, groups, skipped)
+    scrypt_group(tier, rng, groups, skipped, crypt_ok)
     django_group(tier, rng, groups, skipped)
     ldap_crypt_group(tier, rng, groups, skipped, crypt_ok)
     libpass_group(tier, rng, groups, skipped, crypt_ok)
